@@ -73,6 +73,17 @@ def to_grid(rng, x, kind):
     return q, e
 
 
+def spell_unused_length(filt, k):
+    """The same filter length with the unused length option written out as its documented default None (every 5th option set)."""
+    if k % 5 != 2:
+        return filt
+    if filt is None:
+        return {'n_seconds': None}
+    if filt.get('n_seconds') is not None:
+        return dict(filt, n_cycles=None)
+    return dict(n_seconds=None, **filt) if k % 2 else dict(filt, n_seconds=None)
+
+
 def option_set(rng, fs, f_range, k):
     """One documented option combination (cycled so that every cell of the small grids occurs)."""
     center = ('peak', 'trough')[k % 2]
@@ -87,6 +98,7 @@ def option_set(rng, fs, f_range, k):
         filt = {'n_seconds': float(rng.choice([2.0, 3.0, 4.0])) / f_range[0]}
     else:
         filt = None
+    filt = spell_unused_length(filt, k)
     boundary = int([0, 1, 5, fs // 4][(k // 5) % 4])
     fek = {}
     if filt is not None:
@@ -139,10 +151,10 @@ def corpus(seed, n_cases, max_len=900, kinds=None, fs_bands=None, min_cycles=8):
         kind = kinds[int(rng.integers(0, len(kinds)))]
         opts = option_set(rng, fs, f_range, k)
         fk = (opts.get('find_extrema_kwargs') or {}).get('filter_kwargs') or {}
-        if 'n_seconds' in fk:
+        if fk.get('n_seconds') is not None:
             filt_len = fs * fk['n_seconds']
         else:
-            filt_len = fs * fk.get('n_cycles', 3) / f_range[0]
+            filt_len = fs * (fk.get('n_cycles') or 3) / f_range[0]
         bnd = (opts.get('find_extrema_kwargs') or {}).get('boundary', 0)
         n = int(max(min_cycles * fs / f_range[0], 1.6 * filt_len + 10, 2 * bnd + 6 * fs / f_range[0]))
         n = int(n * rng.uniform(1.0, 1.5))
